@@ -332,6 +332,7 @@ fn gen_seq_graph(seed: u64) -> GraphSpec {
 fn graph_hash(g: &GraphSpec) -> u64 {
     let mut h = Fnv::new();
     h.usize(g.fns.len());
+    h.u8(g.provenance);
     for f in &g.fns {
         h.u64(f.reads as u64);
         h.u64(f.writes as u64);
